@@ -340,7 +340,15 @@ where
         log!("{}: {:?}", "Token ahead".paint(LOG), &next_token);
 
         loop {
-            let action = self.definition.actions(state, next_token.kind)[0];
+            // A lexer may return a token which is not expected in the current
+            // state (e.g. a custom lexer that ignores the expected tokens). In
+            // that case there are no actions for the token.
+            let action = self
+                .definition
+                .actions(state, next_token.kind)
+                .first()
+                .copied()
+                .unwrap_or(Action::Error);
 
             match action {
                 Action::Shift(state_id) => {
